@@ -384,8 +384,37 @@ func runCheck(id, tier string, seed int) int {
 			retry = append(retry, j)
 		}
 	}
-	if len(retry) > 0 && len(retry) <= 40 {
+	if len(retry) > 0 && len(retry) <= 60 {
 		discharge(retry, outDir, budget*3, seed+1, 16)
+		// a last round with fewer workers (less contention) and a still larger budget for what remains undecided
+		var retry2 []solveJob
+		for _, j := range retry {
+			if j.ob.Result == "unknown" || j.ob.Result == "timeout" {
+				retry2 = append(retry2, j)
+			}
+		}
+		if len(retry2) > 0 && len(retry2) <= 12 {
+			discharge(retry2, outDir, budget*9, seed+2, 4)
+		}
+	}
+	// per-obligation log (used by tools/stability.py to find slow or unstable obligations)
+	{
+		type obRec struct {
+			Name    string  `json:"name"`
+			Group   string  `json:"group"`
+			Result  string  `json:"result"`
+			Expect  string  `json:"expect"`
+			Solver  string  `json:"solver"`
+			Seconds float64 `json:"seconds"`
+			Total   float64 `json:"total_seconds"`
+			Tries   int     `json:"tries"`
+		}
+		var recs []obRec
+		for _, j := range jobs {
+			recs = append(recs, obRec{j.ob.Name, j.ob.Group, j.ob.Result, j.ob.Expect, j.ob.Solver, round3(j.ob.Seconds), round3(j.ob.Total), j.ob.Tries})
+		}
+		rb, _ := json.MarshalIndent(recs, "", " ")
+		os.WriteFile(filepath.Join(outDir, "obligations.json"), rb, 0o644)
 	}
 
 	// classify
@@ -396,6 +425,7 @@ func runCheck(id, tier string, seed int) int {
 	var solverSec float64
 	var canaryBad []string
 	matchedFinding := map[string]bool{}
+	var unclaimedNames []string
 	assumeScan := map[string]int{}
 	for _, cs := range eng.contracts {
 		for k, v := range cs.Scan {
@@ -426,6 +456,9 @@ func runCheck(id, tier string, seed int) int {
 			if !groupClaimed(pu, o.Group) || matchesAny(o.Name, pu.Unclaimed) {
 				fe.Unclaimed++
 				unclaimedN++
+				if matchesAny(o.Name, pu.Unclaimed) {
+					unclaimedNames = append(unclaimedNames, o.Name)
+				}
 				continue
 			}
 			// known finding?
@@ -491,7 +524,7 @@ func runCheck(id, tier string, seed int) int {
 		"coverage": map[string]any{
 			"obligations": total, "discharged": discharged, "checker_cmd": fmt.Sprintf("bin/vcgo check %s --tier %s", id, tier),
 			"trusted_base": spec.Trusted, "explanation": spec.Explanation, "samples": samples,
-			"functions": funcs, "unclaimed_obligations": unclaimedN, "known_findings_matched": len(knownLines),
+			"functions": funcs, "unclaimed_obligations": unclaimedN, "unclaimed_by_name": unclaimedNames, "known_findings_matched": len(knownLines),
 			"solver_seconds": round3(solverSec), "backends": []string{"z3-new 5.1.0", "z3 4.8.12", "cvc5 1.0"},
 			"assumption_scan": assumeScan, "not_decided": spec.NotDecided,
 			"evaluations": total, "distinct_nontrivial": discharged,
@@ -537,6 +570,13 @@ func groupClaimed(pu PropUnit, g string) bool {
 
 func matchesAny(name string, pats []string) bool {
 	for _, p := range pats {
+		if strings.HasPrefix(p, "=") {
+			// exact obligation name without the package-qualified function prefix: "=post#1", "=frame[HG_written]~2"
+			if i := strings.Index(name, "/"); i >= 0 && name[i+1:] == p[1:] {
+				return true
+			}
+			continue
+		}
 		if strings.Contains(name, p) {
 			return true
 		}
@@ -555,11 +595,17 @@ func matchFinding(fs []Finding, prop, name string) *Finding {
 }
 
 // writeReplay writes the replay file for a failed obligation; returns the VIOLATION-line suffix.
+// replayBudget caps the number of replay attempts (each a `go test` run of up to a minute) of one check run.
+var replayBudget = 8
+
 func writeReplay(eng *Engine, path, prop string, res *UnitResult, o *Obligation) string {
 	var b strings.Builder
 	fmt.Fprintf(&b, "property: %s\nobligation: %s\nfunction: %s.%s\nsource: %s:%d\nwhat: %s\nsolver result: %s (%s)\n", prop, o.Name, res.Pkg, res.Key, shortPath(o.Pos.Filename), o.Pos.Line, o.Detail, o.Result, o.Solver)
 	suffix := " no-failing-input-found"
-	if o.Result == "sat" && o.Model != "" {
+	if replayBudget <= 0 {
+		fmt.Fprintf(&b, "\nreplay skipped: the per-run cap on replay attempts was reached (the first failed obligations were replayed)\nsolver output:\n%s\nno-failing-input-found\n", o.Model)
+	} else if o.Result == "sat" && o.Model != "" {
+		replayBudget--
 		fmt.Fprintf(&b, "\nverifier counterexample (parameter symbols p_<name>):\n%s\n", o.Model)
 		if ok, out := tryReplay(eng, res, o); ok {
 			suffix = ""
@@ -568,6 +614,7 @@ func writeReplay(eng *Engine, path, prop string, res *UnitResult, o *Obligation)
 			fmt.Fprintf(&b, "\nreplay: %s\nno-failing-input-found\n", out)
 		}
 	} else {
+		replayBudget--
 		fmt.Fprintf(&b, "\nno counterexample from the solver (%s): the obligation is undischarged.\nsolver output:\n%s\n", o.Result, o.Model)
 		// candidate search: drop the quantified hypotheses (they are what keeps the solvers from answering sat) and
 		// validate whatever model comes back by running it against the real code
